@@ -38,3 +38,5 @@ D = {
 }
 D["C10"] = dict(text="loop invariants on encode_base58 / decode_base58 over symbolic-length sequences ('1'^lz ++ digits of the value; value accumulation, alphabet check, pad count over s[:-1]); checksum decoder returns the payload iff the last four decoded bytes are the first four of the double SHA-256 (incl. decoded length < 4); code-independent inverse lemmas by induction schema; round trip composed from the contracts.",
                 technique="deductive: inductive loop invariants over z3 sequences + induction-schema lemmas")
+D["C04"] = dict(text="mnemonic_from_entropy: for the five sizes every word is the word at the j-th 11-bit group of ENT || SHA-256(ENT)[:ENT/32 bits] (one obligation per word, bit-string abstraction), single-space separators, word counts 12..24; all other sizes (incl. whitespace hex) rejected; word list pinned by exhaustive checks and the published hash.",
+                technique="deductive: bit-string abstraction + per-word LIA obligations; exhaustive constant check of the word list")
